@@ -307,8 +307,28 @@ impl SchemaCatalog {
         let content = serde_json::to_string_pretty(self)
             .map_err(|e| SchemaError::IoError(format!("Failed to serialize schemas: {e}")))?;
 
-        fs::write(path, content)
+        // Write atomically (temp file, fsync, rename, directory fsync): a crash during
+        // an in-place rewrite would leave a torn file, which loads as an empty catalog.
+        let tmp_path = path.with_extension("json.tmp");
+        {
+            use std::io::Write;
+            let mut file = fs::File::create(&tmp_path).map_err(|e| {
+                SchemaError::IoError(format!("Failed to write schema catalog: {e}"))
+            })?;
+            file.write_all(content.as_bytes()).map_err(|e| {
+                SchemaError::IoError(format!("Failed to write schema catalog: {e}"))
+            })?;
+            file.sync_all().map_err(|e| {
+                SchemaError::IoError(format!("Failed to write schema catalog: {e}"))
+            })?;
+        }
+        fs::rename(&tmp_path, path)
             .map_err(|e| SchemaError::IoError(format!("Failed to write schema catalog: {e}")))?;
+        if let Some(parent) = path.parent() {
+            if let Ok(dir) = fs::File::open(parent) {
+                let _ = dir.sync_all();
+            }
+        }
 
         Ok(())
     }
